@@ -206,6 +206,33 @@ static void vector_op(SPool &P, int s, const std::string &name, long x, long y, 
     } catch (...) { throw; }
 }
 
+// conversions that write into an object the caller supplies (to_buffer / to_std_string overloads): the target already holds
+// text; when the call returns it holds exactly what the value-returning sibling returns, when it throws (Latin-1 without
+// substitution) it still holds its previous text (C18; seeded C18-G cleared it first).  A disagreement is reported as an
+// exception of a kind no library call raises, which the judge of the histories rejects.
+struct out_param_changed : std::exception { const char *what() const noexcept override { return "out-parameter conversion"; } };
+template <class Buf, class Call, class Ref> static size_t out_param_check(Buf stale, Call call, Ref ref) {
+    Buf target = stale;
+    try { call(target); }
+    catch (const ST::unicode_error &) { if (!(target == stale)) throw out_param_changed(); throw; }
+    if (!(target == ref())) throw out_param_changed();
+    return target.size();
+}
+static size_t out_param_conversion(const ST::string &src, const std::string &name) {
+    if (name == "tobuf0") return out_param_check(ST::char_buffer("stale text", 10), [&](ST::char_buffer &b) { src.to_buffer(b); }, [&] { return src.to_utf8(); });
+    if (name == "tobuf1") return out_param_check(ST::char_buffer("stale text", 10), [&](ST::char_buffer &b) { src.to_buffer(b, false, true); }, [&] { return src.to_latin_1(true); });
+    if (name == "tobuf2") return out_param_check(ST::char_buffer("stale text", 10), [&](ST::char_buffer &b) { src.to_buffer(b, false, false); }, [&] { return src.to_latin_1(false); });
+    if (name == "tobuf3") return out_param_check(ST::utf16_buffer(u"stale text", 10), [&](ST::utf16_buffer &b) { src.to_buffer(b); }, [&] { return src.to_utf16(); });
+    if (name == "tobuf4") return out_param_check(ST::utf32_buffer(U"stale text", 10), [&](ST::utf32_buffer &b) { src.to_buffer(b); }, [&] { return src.to_utf32(); });
+    if (name == "tobuf5") return out_param_check(ST::wchar_buffer(L"stale text", 10), [&](ST::wchar_buffer &b) { src.to_buffer(b); }, [&] { return src.to_wchar(); });
+    if (name == "tostr0") return out_param_check(std::string("stale text"), [&](std::string &b) { src.to_std_string(b); }, [&] { return src.to_std_string(); });
+    if (name == "tostr1") return out_param_check(std::string("stale text"), [&](std::string &b) { src.to_std_string(b, false, false); }, [&] { return src.to_std_string(false, false); });
+    if (name == "tostr2") return out_param_check(std::u16string(u"stale text"), [&](std::u16string &b) { src.to_std_string(b); }, [&] { return src.to_std_u16string(); });
+    if (name == "tostr3") return out_param_check(std::u32string(U"stale text"), [&](std::u32string &b) { src.to_std_string(b); }, [&] { return src.to_std_u32string(); });
+    if (name == "tostr4") return out_param_check(std::wstring(L"stale text"), [&](std::wstring &b) { src.to_std_string(b); }, [&] { return src.to_std_wstring(); });
+    throw std::logic_error("unknown out-parameter conversion " + name);
+}
+
 static void query_op(SPool &P, int s, const std::string &name, long x, long y) {
     const ST::string &src = P.str(s);
     auto arg = [&](long i) -> const ST::string & { return P.str((int)i); };
@@ -241,6 +268,7 @@ static void query_op(SPool &P, int s, const std::string &name, long x, long y) {
     else if (name == "fmtarg") r = ST::format("{<30}{}", src, x).size();
     else if (name == "latin") r = ST::format_latin_1("{}", src).size();
     else if (name == "hexdecq") { char tmp[64]; r = (size_t)ST::hex_decode(src, tmp, sizeof tmp); }
+    else if (name.compare(0, 5, "tobuf") == 0 || name.compare(0, 5, "tostr") == 0) r = out_param_conversion(src, name);
     else throw std::logic_error("unknown query op " + name);
     g_sink = r;
 }
@@ -354,6 +382,7 @@ static std::string apply_guarded(SPool &P, const std::string &op) {
     catch (const std::out_of_range &) { return "out_of_range"; }
     catch (const std::invalid_argument &) { return "invalid_argument"; }
     catch (const std::bad_alloc &) { return "bad_alloc"; }
+    catch (const out_param_changed &) { return "out_parameter_changed_or_wrong"; }
     catch (const std::logic_error &e) { fprintf(stderr, "harness: %s\n", e.what()); _exit(2); }
     catch (...) { return "other"; }
 }
@@ -441,7 +470,8 @@ static const char *KOPSXY[] = {"repl", "replci", "replc"};                      
 static const char *KOPSXF[] = {"bf", "af", "bl", "al"};                                           // x = slot, y = ci flag
 static const char *KOPSC[] = {"bfc", "afc", "blc", "alc"};                                        // x = char
 static const char *QOPSX[] = {"find", "findi", "findlast", "contains", "starts", "ends", "cmp", "cmpi", "cmpc", "eq", "lessi"};
-static const char *QOPS0[] = {"hash", "toint", "todouble", "tobool", "to16", "to32", "tow", "tostd", "view", "iter", "at", "wos", "ssw", "latin", "hexdecq"};
+static const char *QOPS0[] = {"hash", "toint", "todouble", "tobool", "to16", "to32", "tow", "tostd", "view", "iter", "at", "wos", "ssw", "latin", "hexdecq",
+                               "tobuf0", "tobuf1", "tobuf2", "tobuf3", "tobuf4", "tobuf5", "tostr0", "tostr1", "tostr2", "tostr3", "tostr4"};
 
 static std::string rand_op(Rng &rng, G &g, bool with_throwing) {
     for (;;) {
@@ -607,6 +637,7 @@ static void gen(Emitter &em, const Options &opt) {
             for (const char *bad : {"00110000", "7fffffff"}) { body.push_back(std::string("T0,c,32:") + bad); body.push_back(std::string("E0,c,32:") + bad); }
             for (long cp : {0x110000L, 0x7FFFFFFFL, 0xD800L, 0x10FFFFL}) { body.push_back("a0," + S(cp)); body.push_back("K3,0,plusch," + S(cp)); body.push_back("K3,0,chplus," + S(cp)); }
             body.push_back("N2:" + pre + "c4802e;K8,2,tolatin1x"); body.push_back("N2:" + pre + "c3a9;K8,2,tolatin1x");
+            for (const char *q : {"tobuf2", "tostr1", "tobuf1", "tobuf0"}) { body.push_back("N2:" + pre + "e282ac2e;Q2," + q); body.push_back("N2:" + pre + "c3a9;Q2," + q); }
             for (const char *bad : {"6", "zz", "4g", "414"}) body.push_back("N2:" + hex_bytes(std::string(c1 & ~(size_t)1, '4') + bad) + ";K8,2,hexdec");
             for (const char *bad : {"QUJD", "QUI=", "QU=D", "Q", "QUJ!", "===="}) body.push_back("N2:" + hex_bytes(bad) + ";K8,2,b64dec");
             for (const char *bad : {"{", "{}{}{}", "{&3}", "{x", "}{", "{.}", "{&0}", "{_}", "{}", "{{}}"}) { body.push_back("N2:" + hex_bytes(std::string(bad)) + ";K3,2,fmtwith,0");
